@@ -6,16 +6,20 @@ import ast, json, os, sys
 V = os.path.dirname(os.path.dirname(os.path.abspath(__file__)))
 sys.path.insert(0, V)
 from sa.model import Model
-from sa.normalize import local_order, _qualified
+from sa.normalize import local_signatures, _qualified, _CONST_NAME
 m = Model(sys.argv[1] if len(sys.argv) > 1 else '/repo')
 out = {}
 for short, mod in sorted(m.modules.items()):
     d = {}
     for q, node in _qualified(mod.tree):
-        names = local_order(node)
-        if names:
-            d[q] = names
+        sigs = local_signatures(node)
+        if sigs:
+            d[q] = [list(x) for x in sigs]
     if d:
         out[short] = d
+import ast
+out['__module_constants__'] = {short: sorted({t.id for s_ in mod.tree.body if isinstance(s_, ast.Assign) for t in s_.targets if isinstance(t, ast.Name) and _CONST_NAME.match(t.id)})
+                               for short, mod in sorted(m.modules.items())}
+out['__module_constants__'] = {k: v for k, v in out['__module_constants__'].items() if v}
 json.dump(out, open(os.path.join(V, 'oracles', 'local_names.json'), 'w'), indent=0, sort_keys=True)
-print(sum(len(v) for v in out.values()), 'functions with locals')
+print(sum(len(v) for k, v in out.items() if k != '__module_constants__'), 'functions with locals;', out['__module_constants__'])
